@@ -506,7 +506,14 @@ def _run_b_det(case):
     if case.get("conf") and not fails:
         from fdtdx.fdtd.fdtd import custom_fdtd_forward
 
-        _, aT = custom_fdtd_forward(arrays0, sc.objects, sc.config, key, reset_container=False, record_detectors=True, start_time=0, end_time=T, show_progress=False)
+        try:
+            _, aT = custom_fdtd_forward(arrays0, sc.objects, sc.config, key, reset_container=False, record_detectors=True, start_time=0, end_time=T, show_progress=False)
+        except Exception as e:
+            empty = [n for n in model if any(v.shape[0] == 0 for v in model[n].values())]
+            if empty and ("update() raised" in str(e) or isinstance(e, IndexError)):
+                # a detector whose schedule has no active step owns zero-length record arrays; the jitted driver cannot trace its update
+                return dict(ok=False, failures=[dict(sig="b:jit-driver-raises:detector-without-any-active-step", detail=dict(detectors=empty, error=str(e)[:200], sched=case["sched"]))], detail={}, nontrivial=0, evals=evals, states=evals, transitions=evals, traces=1)
+            raise
         traces += 1
         for name in model:
             for k in model[name]:
